@@ -431,7 +431,9 @@ def fault_table(prog: Program, rep: Report) -> None:
     handler_guard(prog.func("configure.configure_v2"), ("FileNotFoundError", "OSError"), "Dataset(", "missing warm start file (configuration)")
     handler_guard(prog.func("warm_start.warm_start"), ("FileNotFoundError", "OSError"), "Dataset(", "missing warm start file")
     fo = prog.role_func("forcing", "__init__")
-    guard(rep, prog, rule, fo, "missing forcing files", find_ifs(fo, lambda t: (cmp_norm(t) or ("", "", ""))[1:] == ("==", "0") and "files" in unparse(t) or unparse(t) in ("not files", "len(files) == 0")), "no guard refuses an empty list of forcing files")
+    from ..program import emptiness_subject
+
+    guard(rep, prog, rule, fo, "missing forcing files", find_ifs(fo, lambda t: "files" in (emptiness_subject(t, fo.node) or "")), "no guard refuses an empty list of forcing files")
     cf = inline_helpers(prog, prog.func("configure.configure"))
     guard(rep, prog, rule, cf, "missing configuration file", find_ifs(cf, lambda t: unparse(t) in ("not confile.exists()", "not confile.is_file()")), "a missing configuration file is not refused")
     handler_guard(cf, ("TOMLDecodeError",), "tomli.load(", "invalid TOML configuration")
